@@ -492,6 +492,83 @@ def body_far(case, ctx):
                   "force_oriented gives positive determinant")
 
 
+@st.composite
+def rep_case(draw):
+    n = draw(st.integers(2, 4))
+    perm = draw(st.permutations(list(range(n))))
+    signs = [draw(st.sampled_from([1, -1])) for _ in range(n)]
+    return dict(n=n, pt=draw(kpoint(n, 0.9)), perm=list(perm), signs=signs,
+                angle=draw(st.one_of(fl(-3.0, 3.0), st.sampled_from([1.0, 2.0, -1.0]))),
+                angle_as=draw(st.sampled_from(["float", "npint", "int", "np64"])),
+                order=draw(st.sampled_from(["float-first", "int-first", "int-last", "int-last"])),
+                words=[draw(st.lists(st.sampled_from(["a", "b", "A", "B", "c", "C"]),
+                                     min_size=1, max_size=7)) for _ in range(3)],
+                eps=[draw(fl(-1.0, 1.0)) for _ in range((n + 1) ** 2)])
+
+
+def body_rep(case, ctx):
+    """isometries coming out of a HyperbolicRepresentation (words in generators of mixed
+    dtype: a float translation, a signed permutation given as an INTEGER array, a rotation
+    whose angle may be an integer) preserve the form and are the products of the generators;
+    HyperbolicRepresentation.normalize brings a slightly perturbed isometry back into
+    O(n,1)"""
+    n = case["n"]
+    N = n + 1
+    J = np.diag([-1.0] + [1.0] * n)
+    ctx.label("n=%d" % n, "n>=2", "non-identity", "order=" + case["order"],
+              "angle_as=" + case["angle_as"])
+    T = Point(np.array(case["pt"]), model="klein").origin_to()
+    blk = np.zeros((n, n), dtype=np.int64)
+    for i, (pj, sg) in enumerate(zip(case["perm"], case["signs"])):
+        blk[i, pj] = sg
+    E = Isometry.elliptic(n, blk.copy())
+    ang = case["angle"]
+    if case["angle_as"] in ("npint", "int") and float(ang) != int(ang):
+        ang = float(int(ang)) if abs(ang) >= 1 else 1.0
+    pk = {"float": float(ang), "np64": np.float64(ang),
+          "npint": np.int64(int(ang)) if float(ang) == int(ang) else float(ang),
+          "int": int(ang) if float(ang) == int(ang) else float(ang)}[case["angle_as"]]
+    R = Isometry.standard_rotation(pk, dimension=n)
+    Rm = np.eye(N)
+    Rm[1:3, 1:3] = [[math.cos(ang), -math.sin(ang)], [math.sin(ang), math.cos(ang)]]
+    ctx.close("standard_rotation (column matrix) for this packaging of the angle",
+              np.asarray(R.matrix, dtype=float).T, Rm, rtol=0, atol=1e-12)
+    rep = hyperbolic.HyperbolicRepresentation()
+    gens = {"float-first": [("a", T), ("b", E), ("c", R)], "int-first": [("b", E), ("a", T), ("c", R)],
+            "int-last": [("a", T), ("c", R), ("b", E)]}[case["order"]]
+    for nm, g in gens:          # (the generator assigned last decides rep.dtype)
+        rep[nm] = g
+    col = {"a": np.asarray(T.matrix, dtype=float).T, "b": np.asarray(E.matrix, dtype=float).T,
+           "c": Rm}
+    for k_ in list(col):
+        col[k_.upper()] = np.linalg.inv(col[k_])
+    for w in case["words"]:
+        W = np.eye(N)
+        for g in w:
+            W = W @ col[g]
+        got = np.asarray(rep["".join(w)].matrix, dtype=float).T
+        sc = max(1.0, float(np.sum(W * W)))
+        ctx.close("rep[w] is the product of the generator matrices", got, W, rtol=0,
+                  atol=1e-9 * sc, word="".join(w))
+        ctx.small("rep[w] preserves the Minkowski form", (got.T @ J @ got - J) / (1e-9 * sc), 1.0,
+                  word="".join(w))
+    ws = ["".join(w) for w in case["words"]]
+    comp = np.asarray(rep.isometries(ws).matrix, dtype=float)
+    for i, w in enumerate(case["words"]):
+        M = comp[i]
+        sc = max(1.0, float(np.sum(M * M)))
+        ctx.small("rep.isometries(words)[i] preserves the form", (M @ J @ M.T - J) / (1e-9 * sc),
+                  1.0, word=ws[i])
+    # normalize: a rounded / perturbed isometry (row matrix) back into O(n,1)
+    M0 = np.asarray(T.matrix, dtype=float) @ np.asarray(E.matrix, dtype=float)
+    P = M0 + 1e-4 * np.array(case["eps"]).reshape(N, N) * np.abs(M0).max()
+    Mn = np.asarray(rep.normalize(P.copy()), dtype=float)
+    sc = max(1.0, float(np.sum(M0 * M0)))
+    ctx.small("normalize(perturbed isometry) preserves the form", (Mn @ J @ Mn.T - J) /
+              (1e-9 * sc), 1.0)
+    ctx.small("normalize(perturbed isometry) stays close to it", (Mn - M0) / (1e-2 * sc), 1.0)
+
+
 # --------------------------------------------------------------------------- builders
 def _fo_kwargs(fo):
     return {} if fo is None else {"force_oriented": fo}
@@ -1030,6 +1107,8 @@ LAWS = [
     _ctor_law("coxeter_hyperbolic_rep", 80, 400, exhaustive=coxeter_exhaustive),
     Law("program_preserves_form_and_distance", program_case(), body_program, nt_program,
         quick=200, thorough=1000, shards=(2, 8)),
+    Law("representation_words_and_normalize", rep_case(), body_rep, nt_ctor, quick=150,
+        thorough=1000, shards=(1, 4)),
     Law("far_basepoints_preserve_form", far_case(), body_far, nt_ctor, quick=150, thorough=1000,
         shards=(1, 4)),
     Law("causal_character_preserved", causal_case(), body_causal, nt_ctor, quick=150,
